@@ -8,7 +8,7 @@ import os
 import vlib
 
 ALL_OPS = ["index", "sliced", "strided", "dropped", "taked", "rotated", "unrotated", "transposed", "reversed",
-           "diagonal", "partitioned", "chunked", "flatted", "broadcast", "paren"]
+           "diagonal", "partitioned", "chunked", "flatted", "broadcast", "paren", "halved", "sliced3", "tilde"]
 LAYOUT_CHANGING = set(ALL_OPS) - {"broadcast"}
 
 
@@ -141,6 +141,9 @@ def replay_and_compare(report, prop, res, exe, wd, check_first, max_programs=Non
                 report.violation(sig, {"program": exp, "crash": c, "mode": label})
             continue
         o = obs.get(pid)
+        if o is not None and o.get("st") == "unsupported":      # a limit of the harness (e.g. more than 5 dimensions), not a verdict
+            report.notes["unsupported_by_harness"] = report.notes.get("unsupported_by_harness", 0) + 1
+            continue
         bad = compare(exp, o, check_first)
         if bad:
             sig = {"kind": "mismatch", "op": lastop, "field": bad[0][0], "D": len(exp["root"]["shape"]),
